@@ -384,7 +384,11 @@ class int_converters(number_converters_base):
         return int_from_words(words=words, path=path)
 
     def _value_as_str(self, value):
-        return "%d" % value
+        try:
+            return "%d" % value
+        except (OverflowError, ValueError):
+            # non-finite bound, or more digits than int -> str conversion allows
+            return hex(value) if isinstance(value, int) else str(value)
 
 
 class float_converters(number_converters_base):
@@ -545,7 +549,11 @@ class ints_converters(numbers_converters_base):
         return int_from_number(number=number, words=words, path=path)
 
     def _value_as_str(self, value):
-        return "%d" % value
+        try:
+            return "%d" % value
+        except (OverflowError, ValueError):
+            # non-finite bound, or more digits than int -> str conversion allows
+            return hex(value) if isinstance(value, int) else str(value)
 
 
 class floats_converters(numbers_converters_base):
